@@ -16,6 +16,7 @@ import (
 
 type verifyOpts struct {
 	prop, tier, evidence, known, replays, keep, repo string
+	onlyObl                                          string // replay: solve this obligation only
 	all, sweep                                       bool
 	loadS                                            float64
 }
@@ -222,6 +223,9 @@ func runVerify(w *World, opt verifyOpts) int {
 			continue
 		}
 		for _, o := range r.Obls {
+			if opt.onlyObl != "" && o.Name != opt.onlyObl {
+				continue
+			}
 			if opt.all || len(o.Tags) == 0 || hasTag(o.Tags, opt.prop) {
 				obls = append(obls, o)
 			}
